@@ -25,7 +25,35 @@ var defaultWeights = map[string]int{
 	"batchCall": 1, "dump": 1, "loadSaved": 1, "dumpLoad": 1, "obsNew": 2, "obsReg": 1, "emit": 1, "res": 1, "qOpen": 1, "qNext": 2, "qClose": 2,
 }
 
+// opsHash is a cheap, replay-stable hash of an op list.
+func opsHash(ops []Op) uint64 {
+	h := uint64(1469598103934665603)
+	for i := range ops {
+		o := &ops[i]
+		h = (h ^ uint64(len(o.K)+o.E*3+o.M*7+o.N*13+len(o.Comps)*17+o.Mode*19+o.F*23)) * 1099511628211
+	}
+	return h
+}
+
+// withShapes adds the component-shape history (shapes.go) to a property: every 8th case also runs it, seeded by the
+// case's op list, so that a failure is replayed by the same file.
+func withShapes(pd *PropDef) {
+	prev := pd.Extra
+	pd.Extra = func(it *Interp, ops []Op) {
+		if prev != nil {
+			prev(it, ops)
+		}
+		if h := opsHash(ops); h%8 == 0 {
+			shapeCheck(h)
+			it.count("component-shape-history")
+		}
+	}
+}
+
 func applyDefaults() {
+	for _, id := range []string{"C01", "C11", "C15"} {
+		withShapes(Props[id])
+	}
 	for id, pd := range Props {
 		if pd.Profile.Bulk == 0 {
 			pd.Profile.Bulk = 6 // every profile: a few percent of the cases run on a world with hundreds of archetypes
